@@ -197,7 +197,7 @@ def _plain(v):
     return repr(v)
 
 
-def run_jobs(tasks, nproc=None, progress=None, wall_factor=2.0, wall_extra=60.0):
+def run_jobs(tasks, nproc=None, progress=None, wall_factor=1.5, wall_extra=45.0):
     """tasks: list of (job, mode, suppress). Returns list of results in the same order."""
     nproc = nproc or int(os.environ.get("VERIF_NPROC", "0")) or min(16, os.cpu_count() or 4)
     ctx = mp.get_context("fork")
